@@ -52,6 +52,8 @@ def framed_oracle(sess, obs, ref):
     k = 0
     state = "frames"
     for i, t in enumerate(toks):
+        if t == "PANIC":
+            return "the framed connection panicked while decoding (poll #%d)" % (i + 1)
         if t.startswith("F:"):
             raw = t.split(":")[1]
             if k >= len(frames) or frames[k][0] != raw:
